@@ -10,9 +10,49 @@ import signal
 from .lib import (Out, Proxy, TcpOrigin, base_cfg, echo_handler, free_port, now, open_conn, run_main, tls_client, tls_server, workdir)
 
 N_MAX = 3
-T_MAX = {"direct": 15.0, "h": 15.0, "s5": 15.0, "lb": 15.0, "q": 50.0}   # the QUIC connector needs its idle timeout to notice a dead peer
-CLOSE_MAX = {"direct": 3.0, "h": 3.0, "s5": 3.0, "lb": 3.0, "q": 50.0}
+T_MAX = {"direct": 15.0, "h": 15.0, "s5": 15.0, "lb": 15.0, "q": 50.0, "qx": 50.0}   # the QUIC connector needs its idle timeout to notice a dead peer
+CLOSE_MAX = {"direct": 3.0, "h": 3.0, "s5": 3.0, "lb": 3.0, "q": 50.0, "qx": 50.0}
 KINDS = ["direct", "h", "s5", "q", "lb"]
+# "qx": the quic connector against a QUIC server that is not a redproxy (harness/inproc/quicup.rs) and that can go away politely,
+# i.e. with CONNECTION_CLOSE, as real QUIC servers do on shutdown (a killed redproxy never says goodbye)
+
+
+class QuicUp:
+    def __init__(self, binary, port, wd):
+        self.binary, self.port, self.wd, self.proc = binary, port, wd, None
+
+    async def start(self):
+        import os
+        env = dict(os.environ, REDPROXY_VERIF_INPROC="quicup", RUST_BACKTRACE="0")
+        t = tls_server()
+        self.proc = await asyncio.create_subprocess_exec(self.binary, "--bind", "127.0.0.1:%d" % self.port, "--cert", t["cert"], "--key", t["key"],
+                                                         stdin=asyncio.subprocess.PIPE, stdout=asyncio.subprocess.PIPE, stderr=asyncio.subprocess.DEVNULL, env=env)
+        line = await asyncio.wait_for(self.proc.stdout.readline(), 10)
+        if not line.startswith(b"ready"):
+            raise RuntimeError("quic upstream helper did not start: %r" % line)
+
+    async def polite_close(self):
+        """CONNECTION_CLOSE to every peer, then exit"""
+        try:
+            self.proc.stdin.write(b"close\n")
+            await self.proc.stdin.drain()
+            await asyncio.wait_for(self.proc.wait(), 5)
+        except Exception:
+            self.kill()
+
+    def kill(self):
+        if self.proc is not None and self.proc.returncode is None:
+            try:
+                self.proc.kill()
+            except ProcessLookupError:
+                pass
+
+    async def killed(self):
+        self.kill()
+        try:
+            await asyncio.wait_for(self.proc.wait(), 5)
+        except Exception:
+            pass
 FAULTS = ["kill-restart", "term-restart", "stop-cont", "stop-kill-restart"]
 
 
@@ -22,6 +62,7 @@ class Scenario:
         self.name = "%s/%s/%s/%.1fs" % (kind, fault, phase, outage)
         self.B = None
         self.D = None
+        self.Q = None
         self.log = []
 
 
@@ -45,7 +86,7 @@ async def probe(port, timeout=5.0):
 
 
 async def main(args):
-    out = Out("C19", "c19", "upstream kind {origin via direct, proxy via http, via socks5, via quic, load balancer over two} x fault {SIGKILL+restart, SIGTERM+restart, SIGSTOP..SIGCONT, SIGSTOP+SIGKILL+restart} x phase {idle, mid-transfer (tunnel open across the outage), during connect} x outage length, repeated outages, with a continuous healthy probe stream on another upstream. distinct = distinct (kind, fault, phase, outage length, verdict part)")
+    out = Out("C19", "c19", "upstream kind {origin via direct, proxy via http, via socks5, via quic, load balancer over two, a non-redproxy QUIC server} x fault {SIGKILL+restart, SIGTERM+restart, SIGSTOP..SIGCONT, SIGSTOP+SIGKILL+restart, polite QUIC close (CONNECTION_CLOSE)+restart} x phase {idle, mid-transfer (tunnel open across the outage), during connect} x outage length, repeated outages, with a continuous healthy probe stream on another upstream. distinct = distinct (kind, fault, phase, outage length, verdict part)")
     rng = random.Random(args.seed)
     wd = workdir("c19")
     O = await TcpOrigin(echo_handler, host="127.0.0.1").start()
@@ -60,6 +101,9 @@ async def main(args):
             combos.append((kind, "kill-restart", "mid-transfer", 0.5, 1))
             combos.append((kind, rng.choice(["term-restart", "stop-kill-restart"]), "idle", 1.0, 2))
             combos.append((kind, "stop-cont", rng.choice(["idle", "during-connect"]), 1.0, 1))
+    for fault in ("close-restart", "kill-restart"):
+        for phase in (("idle", "mid-transfer", "during-connect") if args.thorough else ("idle", "mid-transfer")):
+            combos.append(("qx", fault, phase, rng.choice([0.3, 1.0, 3.0]), 2 if phase == "idle" else 1))
     scen = [Scenario(i, *c) for i, c in enumerate(combos)]
     P = {"api": free_port(), "ok": free_port()}
     listeners = [{"name": "ok", "type": "reverse", "bind": "127.0.0.1:%d" % P["ok"], "target": "127.0.0.1:%d" % O.port}]
@@ -71,6 +115,13 @@ async def main(args):
             s.dport = free_port()
             listeners.append({"name": "r%d" % s.i, "type": "reverse", "bind": "127.0.0.1:%d" % s.port, "target": "127.0.0.1:%d" % s.dport})
             rules.append({"filter": "request.listener == \"r%d\"" % s.i, "target": "direct"})
+            continue
+        if s.kind == "qx":
+            s.qport = free_port()
+            s.Q = QuicUp(args.bin, s.qport, wd)
+            listeners.append({"name": "r%d" % s.i, "type": "reverse", "bind": "127.0.0.1:%d" % s.port, "target": "127.0.0.1:%d" % O.port})
+            connectors.append({"name": "qx%d" % s.i, "type": "quic", "server": "localhost", "port": s.qport, "tls": tls_client(), "bind": "127.0.0.1:0"})
+            rules.append({"filter": "request.listener == \"r%d\"" % s.i, "target": "qx%d" % s.i})
             continue
         bp = {k: free_port() for k in ("http", "socks", "quic", "api")}
         s.bp = bp
@@ -108,11 +159,15 @@ async def main(args):
     async def start_upstream(s):
         if s.kind == "direct":
             s.D = await TcpOrigin(echo_handler, host="127.0.0.1", port=s.dport).start()
+        elif s.kind == "qx":
+            await s.Q.start()
         else:
             await s.B.start()
 
     async def upstream_reachable(s, timeout=15.0):
         t0 = now()
+        if s.kind == "qx":
+            return s.Q.proc is not None and s.Q.proc.returncode is None   # start() returned after the helper bound its socket
         port = s.dport if s.kind == "direct" else s.bp["http"]
         while now() - t0 < timeout:
             try:
@@ -135,6 +190,14 @@ async def main(args):
             await s.D.stop()
             await asyncio.sleep(s.outage)
             s.D = await TcpOrigin(echo_handler, host="127.0.0.1", port=s.dport).start()
+            return True
+        if s.kind == "qx":
+            if s.fault == "close-restart":
+                await s.Q.polite_close()
+            else:
+                await s.Q.killed()
+            await asyncio.sleep(s.outage)
+            await s.Q.start()
             return True
         if s.fault == "kill-restart":
             s.B.signal(signal.SIGKILL)
@@ -211,7 +274,7 @@ async def main(args):
             if recovered is None:
                 out.violation("no recovery after the upstream became reachable again: %s upstream (%s)" % (s.kind, "hard outage" if hard else "stall"), w)
                 return
-            if recovered > T_MAX[s.kind] or attempts > N_MAX + (2 if s.kind == "q" else 0):
+            if recovered > T_MAX[s.kind] or attempts > N_MAX + (2 if s.kind in ("q", "qx") else 0):
                 out.violation("recovery slower than the bound after the upstream became reachable again: %s upstream" % s.kind, dict(w, recovered_after_s=round(recovered, 2), t_max=T_MAX[s.kind]))
             else:
                 out.count("recoveries_within_bound")
@@ -274,6 +337,8 @@ async def main(args):
                 s.B.kill()
             if s.D:
                 await s.D.stop()
+            if s.Q:
+                s.Q.kill()
         await O.stop()
         import shutil
         shutil.rmtree(wd, ignore_errors=True)
